@@ -120,6 +120,28 @@ def _replay_chunk(args):
         ops_mod.install(ag, recorder)
     opcalls = {}
     routing = []
+    namer_calls = {}
+    record_namer = any(o.get('namer') for o in opts)
+    if record_namer:
+        from malt.pyct import naming
+        orig_new_symbol = naming.Namer.new_symbol
+        current = {'pid': None}
+
+        def spy(self, name_root, reserved_locals):
+            res = orig_new_symbol(self, name_root, reserved_locals)
+            flat = set()
+            for x in reserved_locals:
+                flat.update(getattr(x, 'qn', None) or [str(x)]) if not isinstance(x, str) else flat.add(x)
+            fname = ''
+            fr = sys._getframe(1)
+            while fr is not None:
+                if fr.f_code.co_name == 'visit_FunctionDef' and hasattr(fr.f_locals.get('node'), 'name'):
+                    fname = fr.f_locals['node'].name
+                    break
+                fr = fr.f_back
+            namer_calls.setdefault(current['pid'], []).append([name_root, sorted(str(y) for y in flat), res, fname])
+            return res
+        naming.Namer.new_symbol = spy
     import logging
     wd = os.path.join(wdroot, 'w%d' % os.getpid())
     os.makedirs(wd, exist_ok=True)
@@ -136,6 +158,8 @@ def _replay_chunk(args):
             fn = getattr(m, p['fns'][0]['name'])
             conv = {}
             for o in opts:
+                if record_namer:
+                    current['pid'] = pid
                 try:
                     conv[o['name']] = convert_fn(fn, o)
                 except Exception as e:   # conversion must succeed for every program of the class
@@ -174,7 +198,9 @@ def _replay_chunk(args):
             if why:
                 out.append(dict(pid=pid, dec=rec['dec'], opt=o['name'], why=why, expected=mp.spec_outcome(rec),
                                 observed=res['out'], exp_log=rec['log'], obs_log=res['log'], bad=rec.get('bad', '')))
-    return dict(div=out, n=n, conv_errors=conv_errors, opcalls=list(opcalls.values()), routing=routing,
+    if record_namer:
+        naming.Namer.new_symbol = orig_new_symbol
+    return dict(div=out, n=n, conv_errors=conv_errors, opcalls=list(opcalls.values()), routing=routing, namer=namer_calls,
                 codes={pid: code_of(conv) for pid, (m, conv) in cache.items()} if any(o.get('code') for o in opts) else {})
 
 
@@ -199,6 +225,9 @@ def replay_all(progs, recs, opts, procs=14, chunk=1500, name='replay'):
             errs[(e['pid'], e['opt'])] = e
     replay_all.opcalls = [c for r in results for c in r.get('opcalls', [])]
     replay_all.routing = [c for r in results for c in r.get('routing', [])]
+    replay_all.namer = {}
+    for r in results:
+        replay_all.namer.update(r.get('namer', {}))
     replay_all.codes = {}
     for r in results:
         replay_all.codes.update(r.get('codes', {}))
